@@ -232,7 +232,10 @@ func randStmts(r *rand.Rand, n int, d int, inLoop bool) (string, bool) {
 	return strings.Join(parts, " "), runnable
 }
 
-var c12RandLeaves = []string{"'a'", "''", "'12'", "1", "0", "2", "true", "false", "u", "x", "y", "vn", "match", "matchLength"}
+// the names the run-time environments define (match, matchLength everywhere; matchNumber and the per-match built-ins
+// for transforms only) are leaves too: to the checker every name but match/matchLength is an unassigned string
+var c12RandLeaves = []string{"'a'", "''", "'12'", "1", "0", "2", "true", "false", "u", "x", "y", "vn", "match", "matchLength",
+	"matchNumber", "matchNumber", "startOffset", "totalMatches", "value", "filename", "lineNumber"}
 
 // random expression tree, NOT necessarily well typed, fully parenthesised
 func randExpr(r *rand.Rand, d int) string {
